@@ -2,5 +2,5 @@
 # usage: own.sh <outfile> <mutant-dir>...  — runs, for every seeded change, the check of the property it was written against
 # (reverse patches: the property named in meta.json); 8 in parallel
 out=$1; shift
-printf '%s\n' "$@" | xargs -P 8 -I{} bash -c 'd={}; n=$(basename $d); c=${n:0:3}; case $n in F*) c=$(python3 -c "import json;print(json.load(open(\"$d/meta.json\")).get(\"property\",\"\"))");; esac; [ -n "$c" ] && timeout 900 /verif/tools/try_mutant.sh $d/patch.diff $c 2>&1 | cut -c1-220' > "$out"
+printf '%s\n' "$@" | xargs -P ${OWN_P:-8} -I{} bash -c 'd={}; n=$(basename $d); c=${n:0:3}; case $n in F*) c=$(python3 -c "import json;print(json.load(open(\"$d/meta.json\")).get(\"property\",\"\"))");; esac; [ -n "$c" ] && timeout 900 /verif/tools/try_mutant.sh $d/patch.diff $c 2>&1 | cut -c1-220' > "$out"
 grep -c CAUGHT "$out"
